@@ -52,8 +52,11 @@ PATTERNS = [
 
 def coord_index(text, case):
     """the message prints the offending coordinate; the structured tag carries its position"""
-    for k, c in enumerate(case.get("coords", [])):
-        if str(c) == text:
+    strs = case.get("coord_strs")
+    if strs is None:
+        strs = [str(c) for c in case.get("coords", [])]
+    for k, c in enumerate(strs):
+        if c == text:
             return k
     return -1
 
@@ -84,7 +87,7 @@ def mk_metadata(axes):
 
 
 def mk_seg(case):
-    return np.asarray(case["flat"], dtype=np.int64).reshape(case["shape"])
+    return np.asarray(case["flat"], dtype=case.get("seg_dtype", "int64")).reshape(case["shape"])
 
 
 def call(f, case, *a, **k):
@@ -97,6 +100,198 @@ def call(f, case, *a, **k):
     return {"ok": bool(ok), "errors": [parse_msg(e, case) for e in errs]}
 
 
+# ---- argument flavours: the same logical input as the caller may hold it
+def fits(v, dt):
+    info = np.iinfo(dt)
+    return info.min <= v <= info.max
+
+
+def int_array(vals, dt=None):
+    for c in ([dt] if dt else []) + ["int64", "uint64"]:
+        if all(fits(v, c) for v in vals):
+            return np.asarray(list(vals), dtype=c)
+    return None
+
+
+def np_scalar(v):
+    return np.int64(v) if fits(v, "int64") else np.uint64(v) if fits(v, "uint64") else v
+
+
+def conv_ints(vals, fl):
+    """seg ids / time points"""
+    if fl in (None, "list"):
+        return list(vals)
+    if fl == "tuple":
+        return tuple(vals)
+    if fl == "np_scalars":
+        return [np_scalar(v) for v in vals]
+    if fl.startswith("array"):
+        a = int_array(vals, fl.split(":")[1] if ":" in fl else None)
+        if a is None:
+            return list(vals)
+        if fl.startswith("array_ro"):
+            a.setflags(write=False)
+        return a
+    raise ValueError(fl)
+
+
+def f32_exact(x):
+    return float(np.float32(x)) == float(x)
+
+
+def pow2(x):
+    fr = Fraction(x)
+    return fr > 0 and (fr.numerator == 1 or fr.denominator == 1) and (fr.numerator & (fr.numerator - 1)) == 0
+
+
+def conv_coords(coords, fl, scale):
+    if fl in (None, "list_of_lists"):
+        return [list(c) for c in coords]
+    if fl == "list_of_tuples":
+        return [tuple(c) for c in coords]
+    if fl == "tuple_of_arrays":
+        return tuple(np.asarray(c, dtype=np.float64) for c in coords)
+    rect = len(coords) > 0 and len({len(c) for c in coords}) == 1 and len(coords[0]) > 0
+    if not rect:
+        return [list(c) for c in coords]
+    flat = [x for c in coords for x in c]
+    dt = np.float64
+    if fl == "i64_2d" and all(float(x).is_integer() for x in flat):
+        dt = np.int64
+    elif fl == "f32_2d" and all(f32_exact(x) for x in flat) and all(pow2(x) for x in (scale or [])):
+        dt = np.float32                      # products with powers of two stay exact in float32
+    a = np.asarray(coords, dtype=dt)
+    if fl.endswith("_ro"):
+        a.setflags(write=False)
+    return a
+
+
+def conv_scale(scale, fl):
+    if scale is None:
+        return None
+    if fl in (None, "list"):
+        return list(scale)
+    if fl == "tuple":
+        return tuple(scale)
+    if fl == "array_i64" and all(isinstance(x, int) for x in scale):
+        return np.asarray(scale, dtype=np.int64)
+    a = np.asarray(scale, dtype=np.float64)
+    if fl.endswith("_ro"):
+        a.setflags(write=False)
+    return a
+
+
+def plain(x):
+    return x.item() if isinstance(x, np.generic) else x
+
+
+def snap(o):
+    """structural snapshot of an argument (to detect that a function modified it)"""
+    if isinstance(o, np.ndarray):
+        return ("nd", o.dtype.str, o.shape, o.tobytes(), bool(o.flags.writeable))
+    if isinstance(o, np.generic):
+        return ("sc", o.dtype.str, o.tobytes())
+    if isinstance(o, (list, tuple)):
+        return (type(o).__name__, tuple(snap(x) for x in o))
+    if isinstance(o, dict):
+        return ("dict", tuple((k, snap(v)) for k, v in o.items()))
+    if hasattr(o, "model_dump_json"):
+        return ("md", o.model_dump_json())
+    return ("py", repr(o))
+
+
+class Args:
+    """the argument objects of one case, built once and shared by all calls of a history"""
+
+    def __init__(self, case):
+        fl = case.get("flavour", {})
+        self.case = case
+        self.seg = mk_seg(case) if "flat" in case else np.zeros(case["seg_shape"], dtype=case.get("seg_dtype", "int64"))
+        if fl.get("seg") == "ro":
+            self.seg.setflags(write=False)
+        self.scale = conv_scale(case.get("scale"), fl.get("scale"))
+        self.coords = conv_coords(case["coords"], fl.get("coords"), case.get("scale")) if "coords" in case else None
+        self.ids = conv_ints(case["ids"], fl.get("ids")) if "ids" in case else None
+        self.tps = conv_ints(case["tps"], fl.get("tps")) if "tps" in case else None
+        self.md = mk_metadata(case.get("axes")) if "axes" in case else None
+        self.geff = {"metadata": self.md}
+        self.objs = {"segmentation": self.seg, "scale": self.scale, "coords": self.coords, "seg_ids": self.ids,
+                     "time_points": self.tps, "metadata": self.md}
+
+    def effective(self, kind):
+        """the plain single-call case these objects denote (what oracle and model are asked about)"""
+        c = self.case
+        e = {"kind": kind, "axes": c.get("axes")}
+        shape = c.get("shape", c.get("seg_shape"))
+        if kind in ("in_bounds", "axes_match"):
+            e["seg_shape"] = shape
+        else:
+            e["shape"], e["flat"] = shape, c["flat"]
+        if kind in ("in_bounds", "coords"):
+            e["scale"] = None if self.scale is None else [plain(x) for x in (self.scale.tolist() if isinstance(self.scale, np.ndarray) else self.scale)]
+        if kind == "coords":
+            e["coords"] = [[plain(x) for x in (r.tolist() if isinstance(r, np.ndarray) else r)] for r in self.coords]
+            e["coord_strs"] = [str(r) for r in self.coords]
+        if kind in ("coords", "time"):
+            e["ids"] = [int(x) for x in self.ids]
+        if kind == "time":
+            e["tps"] = [int(x) for x in self.tps]
+        if "seg_dtype" in c:
+            e["seg_dtype"] = c["seg_dtype"]
+        return e
+
+    def invoke(self, kind, eff):
+        from geff.validate import segmentation as S
+
+        if kind == "axes_match":
+            return call(S.axes_match_seg_dims, eff, self.geff, self.seg)
+        if kind == "in_bounds":
+            if self.scale is None:
+                return call(S.graph_is_in_seg_bounds, eff, self.geff, self.seg)
+            return call(S.graph_is_in_seg_bounds, eff, self.geff, self.seg, scale=self.scale)
+        if kind == "time":
+            return call(S.has_seg_ids_at_time_points, eff, self.seg, self.tps, self.ids, self.md)
+        if kind == "coords":
+            if self.scale is None:
+                return call(S.has_seg_ids_at_coords, eff, self.seg, self.coords, self.ids)
+            return call(S.has_seg_ids_at_coords, eff, self.seg, self.coords, self.ids, scale=self.scale)
+        raise ValueError(kind)
+
+
+def run_calls(case):
+    """-> {"calls": [(kind, effective case, impl obs, expected)], "extra": [(key, what, observed, expected)]}
+    One call for an ordinary case; for a history (`calls`: list of kinds) the same argument objects are
+    handed to every call.  After every call each argument is compared with its snapshot."""
+    args = Args(case)
+    kinds = case.get("calls") or [case["kind"]]
+    out, extra = [], []
+    first = {}
+    for n, kind in enumerate(kinds):
+        eff = args.effective(kind)               # (re-read from the objects: a modification shows here too)
+        before = {k: snap(v) for k, v in args.objs.items()}
+        im = args.invoke(kind, eff)
+        after = {k: snap(v) for k, v in args.objs.items()}
+        changed = [k for k in before if before[k] != after[k]]
+        if changed:
+            extra.append(("C19:function-modifies-argument",
+                          f"call {n} ({kind}) modified its argument(s) {changed}", changed, "arguments unchanged"))
+        if n == 0 or kind not in first:
+            eff0 = eff
+        # the verdict every call is judged by is the one for the ORIGINAL arguments
+        if kind not in first:
+            first[kind] = (eff, im)
+            exp = oracle(eff)
+        else:
+            eff0, im0 = first[kind]
+            exp = oracle(eff0)
+            if im != im0:
+                extra.append(("C19:history-dependent-verdict",
+                              f"call {n} ({kind}) with the same argument objects returned {im} after {im0}", im, im0))
+            eff = eff0
+        out.append((kind, {k: v for k, v in eff.items() if k != "coord_strs"}, im, exp))
+    return {"calls": out, "extra": extra}
+
+
 def impl_obs(case):
     from geff.validate import segmentation as S
 
@@ -106,27 +301,20 @@ def impl_obs(case):
         for name, info in case["props"].items():
             n = case.get("n", 3)
             dt = "<U3" if info["dtype"] == "str" else info["dtype"]
-            props[name] = {"values": np.zeros(n, dtype=dt),
+            vals = np.zeros(n, dtype=dt)
+            if case.get("extreme") and np.dtype(dt).kind in "iu":
+                vals[...] = np.iinfo(dt).max
+            if case.get("extreme"):
+                vals.setflags(write=False)
+            props[name] = {"values": vals,
                            "missing": None if info["missing"] is None else np.asarray(info["missing"], dtype=bool)}
         g = {"node_props": props}
-        return call(S.has_valid_seg_id, case, g, case["key"]) if case["key"] != "seg_id" or case.get("explicit_key") \
+        before = snap(props)
+        r = call(S.has_valid_seg_id, case, g, case["key"]) if case["key"] != "seg_id" or case.get("explicit_key") \
             else call(S.has_valid_seg_id, case, g)
-    if k == "axes_match":
-        g = {"metadata": mk_metadata(case["axes"])}
-        return call(S.axes_match_seg_dims, case, g, np.zeros(case["seg_shape"], dtype=np.int64))
-    if k == "in_bounds":
-        g = {"metadata": mk_metadata(case["axes"])}
-        seg = np.zeros(case["seg_shape"], dtype=np.int64)
-        if case["scale"] is None:
-            return call(S.graph_is_in_seg_bounds, case, g, seg)
-        return call(S.graph_is_in_seg_bounds, case, g, seg, scale=case["scale"])
-    if k == "time":
-        md = mk_metadata(case["axes"])
-        return call(S.has_seg_ids_at_time_points, case, mk_seg(case), case["tps"], case["ids"], md)
-    if k == "coords":
-        if case["scale"] is None:
-            return call(S.has_seg_ids_at_coords, case, mk_seg(case), case["coords"], case["ids"])
-        return call(S.has_seg_ids_at_coords, case, mk_seg(case), case["coords"], case["ids"], scale=case["scale"])
+        if snap(props) != before:
+            r["modified"] = True
+        return r
     raise ValueError(k)
 
 
@@ -237,6 +425,21 @@ def dy(x):
     return [m if abs(m) < 2 ** 53 else str(m), e]
 
 
+def ji(v):
+    return v if abs(v) < 2 ** 53 else str(v)
+
+
+def unstr(o):
+    """driver answers carry integers above 2^53 as decimal strings"""
+    if isinstance(o, list):
+        return [unstr(x) for x in o]
+    if isinstance(o, dict):
+        return {k: unstr(v) for k, v in o.items()}
+    if isinstance(o, str) and re.fullmatch(r"-?\d+", o):
+        return int(o)
+    return o
+
+
 def axes_json(axes):
     if axes in (None, "nometa"):
         return None
@@ -254,10 +457,10 @@ def model_req(case):
         return {"op": "in_bounds", "axes": axes_json(case["axes"]), "shape": case["seg_shape"],
                 "scale": None if case["scale"] is None else [dy(s) for s in case["scale"]]}
     if k == "time":
-        return {"op": "time_points", "shape": case["shape"], "flat": case["flat"], "tps": case["tps"], "ids": case["ids"],
-                "axes": axes_json(case["axes"])}
+        return {"op": "time_points", "shape": case["shape"], "flat": [ji(v) for v in case["flat"]],
+                "tps": [ji(v) for v in case["tps"]], "ids": [ji(v) for v in case["ids"]], "axes": axes_json(case["axes"])}
     if k == "coords":
-        return {"op": "coords", "shape": case["shape"], "flat": case["flat"], "ids": case["ids"],
+        return {"op": "coords", "shape": case["shape"], "flat": [ji(v) for v in case["flat"]], "ids": [ji(v) for v in case["ids"]],
                 "coords": [[dy(x) for x in c] for c in case["coords"]],
                 "scale": None if case["scale"] is None else [dy(s) for s in case["scale"]]}
     raise ValueError(k)
